@@ -17,7 +17,7 @@ from typing import Dict, List, Optional, Sequence, Tuple
 
 from .symex import u
 
-_COMMUTATIVE_BIN = (ast.Add, ast.Mult, ast.BitAnd, ast.BitOr)
+_COMMUTATIVE_BIN = (ast.Mult, ast.BitAnd, ast.BitOr)  # `+` is list concatenation in this code base: order matters
 _FLIP = {ast.Gt: ast.Lt, ast.GtE: ast.LtE}
 
 
@@ -46,6 +46,9 @@ class _Canon(ast.NodeTransformer):
 
     def visit_UnaryOp(self, node: ast.UnaryOp):
         self.generic_visit(node)
+        # fold negative literals: -1 is a constant, not an expression
+        if isinstance(node.op, ast.USub) and isinstance(node.operand, ast.Constant) and isinstance(node.operand.value, (int, float)) and not isinstance(node.operand.value, bool):
+            return ast.Constant(value=-node.operand.value)
         # not (a == b) -> a != b ; not (a is None) -> a is not None
         if isinstance(node.op, ast.Not) and isinstance(node.operand, ast.Compare) and len(node.operand.ops) == 1:
             inv = {ast.Eq: ast.NotEq, ast.NotEq: ast.Eq, ast.Is: ast.IsNot, ast.IsNot: ast.Is, ast.In: ast.NotIn, ast.NotIn: ast.In,
@@ -96,13 +99,38 @@ def _tok(n: ast.AST) -> Optional[str]:
     return None
 
 
-def shape_diff(a: ast.AST, b: ast.AST, path: str = "") -> Optional[List[Tuple[str, str, str]]]:
+def shape_diff(a: ast.AST, b: ast.AST, path: str = "", _mirrored: bool = False) -> Optional[List[Tuple[str, str, str]]]:
     """None if the trees have different shapes, else the list of differing leaf tokens."""
     if isinstance(a, (ast.operator, ast.cmpop, ast.unaryop, ast.boolop)) and isinstance(
         b, (ast.operator, ast.cmpop, ast.unaryop, ast.boolop)
     ):
         return [] if type(a) is type(b) else [(path, type(a).__name__, type(b).__name__)]
+    # leaves of different kinds (a name where a constant is specified) are a token substitution
+    if isinstance(a, (ast.Name, ast.Constant)) and isinstance(b, (ast.Name, ast.Constant)) and type(a) is not type(b):
+        return [(path, str(_tok(a)), str(_tok(b)))]
+    # slices are compared as a whole: [-2:] vs [:2]
+    if isinstance(a, ast.Slice) and isinstance(b, ast.Slice):
+        ta, tb = u(ast.Subscript(value=ast.Name(id="_", ctx=ast.Load()), slice=a, ctx=ast.Load())), u(ast.Subscript(value=ast.Name(id="_", ctx=ast.Load()), slice=b, ctx=ast.Load()))
+        return [] if ta == tb else [(path, ta[1:], tb[1:])]
+    # a dropped / added negation: `x` where `not x` is specified
+    if isinstance(a, ast.UnaryOp) and isinstance(a.op, ast.Not) and not (isinstance(b, ast.UnaryOp) and isinstance(b.op, ast.Not)):
+        d = shape_diff(a.operand, b, path)
+        if d is not None and not d:
+            return [(path, "not " + u(a.operand)[:40], u(b)[:40])]
+    if isinstance(b, ast.UnaryOp) and isinstance(b.op, ast.Not) and not (isinstance(a, ast.UnaryOp) and isinstance(a.op, ast.Not)):
+        d = shape_diff(a, b.operand, path)
+        if d is not None and not d:
+            return [(path, u(a)[:40], "not " + u(b.operand)[:40])]
     if type(a) is not type(b):
+        return None
+    if isinstance(a, ast.Compare) and len(a.ops) == 1 and len(b.ops) == 1 and not _mirrored:
+        direct = shape_diff(a, b, path, True)
+        if direct is not None:
+            return direct
+        flip = {ast.Lt: ast.Gt, ast.Gt: ast.Lt, ast.LtE: ast.GtE, ast.GtE: ast.LtE, ast.Eq: ast.Eq, ast.NotEq: ast.NotEq}
+        if type(a.ops[0]) in flip:
+            am = ast.Compare(left=a.comparators[0], ops=[flip[type(a.ops[0])]()], comparators=[a.left])
+            return shape_diff(am, b, path, True)
         return None
     out: List[Tuple[str, str, str]] = []
     ta, tb = _tok(a), _tok(b)
